@@ -203,3 +203,88 @@ pub fn format_family(max_n: usize, stride: usize) -> Vec<(Facts, String)> {
     }
     out
 }
+
+/// Family E: HP:1, HP:118 (child of 1), HP:5 (a modifier root, child of 1) and k free terms whose parent
+/// sets range over all subsets of {118, 5, earlier free terms} (the empty set = disconnected term),
+/// with six obsolete / replacement patterns and a record pattern derived from the shape index.
+pub fn family_e(k_min: usize, k_max: usize, free_ids: &[u32]) -> Vec<(Facts, String)> {
+    let mut out = vec![];
+    for k in k_min..=k_max {
+        // parent choices of free term i: subsets of [118, 5, free_0..free_{i-1}]
+        let mut radices: Vec<u32> = vec![];
+        for i in 0..k {
+            radices.push(1 << (2 + i));
+        }
+        let total: u64 = radices.iter().map(|r| *r as u64).product();
+        for shape in 0..total {
+            let mut rem = shape;
+            let mut base = Facts::default();
+            base.version = (2024, 2, 29);
+            base.terms.push(Facts::term(1, "All"));
+            base.terms.push(Facts::term(118, "Phenotypic abnormality"));
+            base.terms.push(Facts::term(5, "Mode of inheritance"));
+            base.edges.push((118, 1));
+            base.edges.push((5, 1));
+            for i in 0..k {
+                let choice = (rem % radices[i] as u64) as u32;
+                rem /= radices[i] as u64;
+                let id = free_ids[i];
+                base.terms.push(Facts::term(id, &format!("Free {id}")));
+                let candidates: Vec<u32> = [118u32, 5].into_iter().chain(free_ids[..i].iter().copied()).collect();
+                for (b, c) in candidates.iter().enumerate() {
+                    if choice >> b & 1 == 1 {
+                        base.edges.push((id, *c));
+                    }
+                }
+            }
+            for flags in 0..6u32 {
+                if k == 0 && flags > 0 {
+                    continue;
+                }
+                let mut f = base.clone();
+                let first = 3;
+                let last = 3 + k.saturating_sub(1);
+                let what = match flags {
+                    0 => "no flags",
+                    1 => {
+                        f.terms[last].obsolete = true;
+                        f.terms[last].replacement = Some(f.terms[first].id);
+                        "last free term obsolete, replaced by the first free term"
+                    }
+                    2 => {
+                        f.terms[last].obsolete = true;
+                        f.terms[last].replacement = Some(118);
+                        "last free term obsolete, replaced by HP:118"
+                    }
+                    3 => {
+                        f.terms[first].replacement = Some(f.terms[last].id);
+                        "first free term replaced by the last one without obsolete flag"
+                    }
+                    4 => {
+                        if k < 2 {
+                            continue;
+                        }
+                        for t in [last, last - 1] {
+                            f.terms[t].obsolete = true;
+                            f.terms[t].replacement = Some(if k >= 3 { f.terms[first].id } else { 5 });
+                        }
+                        "two obsolete terms with the same replacement"
+                    }
+                    _ => {
+                        f.terms[last].obsolete = true;
+                        "last free term obsolete without replacement"
+                    }
+                };
+                if (flags == 1 || flags == 3) && k < 2 {
+                    continue; // would replace a term by itself
+                }
+                let n = f.terms.len();
+                let ids: Vec<u32> = f.terms.iter().map(|t| t.id).collect();
+                let s = ((shape * 7 + flags as u64 * 3 + 1) % (1u64 << n)) as u32;
+                f.anns = AnnGroups::new(s, &ids).interleaved();
+                out.push((f, format!("k={k} shape={shape} flags: {what}; annotated subset {:?}", crate::space::bits(s, n))));
+            }
+        }
+    }
+    out
+}
